@@ -8,7 +8,9 @@ which is two critical sections:
   * `commitCheck` — under the buffer lock: refuse if the session is poisoned, compare the
     digest of the buffered bytes, take a SNAPSHOT of them (`committedBuf`), mark committed;
   * `commitStore` — the commit callback, under the registry lock: store the snapshot as a blob.
-Any other atomic steps (in particular writes to the same upload session) may come between.
+Any other atomic steps (in particular writes to the same upload session) may come between —
+except, since fix F33, the steps of another `Commit` or of a `Cancel` of the same session, which
+`Buffer.commitMu` keeps out: see `CommitSerial` below. `astep` itself knows nothing of that lock.
 That a Go execution *is* such an interleaving rests on `sync.Mutex` and on the extractor
 having seen every shared access (trusted; the race detector run supports it).
 -/
@@ -74,6 +76,71 @@ def arun (c : CState) : List AStep → CState
 
 /-- every pending snapshot hashes to the digest it will be stored under -/
 def SnapsOk (sn : Snaps) : Prop := ∀ k dig data, lookupSnap k sn = some (dig, data) → H data = dig
+
+end
+
+/-! ### The commit lock (`Buffer.commitMu`, fix F33)
+
+`Buffer.Commit` and `Buffer.Cancel` hold `Buffer.commitMu` for their whole body (regenerated fact
+`Generated.Locks.wholeBodyLocks`: rows `("Buffer","Commit",m)` and `("Buffer","Cancel",m)` with the
+same mutex `m` = `commitMu`; obligation `Props.C08.generated_commit_serialized`). So, per upload
+session, a `Commit` that has passed its first critical section (`commitCheck` answered `okUnit`)
+keeps the lock until its second one (`commitStore`), and meanwhile no other `Commit` — neither of
+its sections, nor the one-step `wCommit` — and no `Cancel` of that session can run. A `Commit`
+whose check refuses returns at once and releases the lock. Everything else (writes to that very
+session, `Size`, resumes, other sessions, the registry's own operations) does not take `commitMu`
+and may come in between. `CommitSerial` below says exactly that of a schedule, and nothing more.
+`astep` / `arun` themselves are unchanged: they still describe what happens WITHOUT the lock
+(`Props.C08.dual_commit_anomaly_without_the_lock`). -/
+
+/-- the sessions `(repo, id)` whose `commitMu` is held by a `Commit` between its two sections -/
+abbrev Held := List (Bytes × Bytes)
+
+/-- `a` is a step of a call that takes the `commitMu` of session `(r, id)`: a section of a
+`Commit` of it, a one-step `Commit` (`wCommit`), or a `Cancel` (`wCancel`) -/
+def TakesCommitMu (r id : Bytes) : AStep → Prop
+  | .commitCheck r' id' _ => r' = r ∧ id' = id
+  | .commitStore r' id' => r' = r ∧ id' = id
+  | .op (.wCommit r' id' _) => r' = r ∧ id' = id
+  | .op (.wCancel r' id') => r' = r ∧ id' = id
+  | .op _ => False
+
+/-- What step `a`, which answered `out`, does to the commit locks; `none`: the step cannot run
+now, because it needs a `commitMu` that a `Commit` in progress holds.
+  * `commitCheck` acquires the lock of its session and keeps it iff the check passed;
+  * `commitStore` is the end of the `Commit` that holds the lock of its session: it releases it
+    (a `commitStore` with no `Commit` in progress has no counterpart in Go; it is not restricted);
+  * `wCancel` and the one-step `wCommit` acquire and release the lock within the step;
+  * no other step touches a `commitMu`. -/
+def lockStep (held : Held) (a : AStep) (out : Out) : Option Held :=
+  match a with
+  | .commitCheck r id _ =>
+    if held.contains (r, id) then none else some (if out = .okUnit then (r, id) :: held else held)
+  | .commitStore r id => some (held.filter fun k => !(k == (r, id)))
+  | .op (.wCommit r id _) => if held.contains (r, id) then none else some held
+  | .op (.wCancel r id) => if held.contains (r, id) then none else some held
+  | .op _ => some held
+
+section
+variable (H : Bytes → Bytes)
+
+/-- the schedule respects the commit locks, started in state `c` with the locks `held` taken -/
+def commitSerialFrom (c : CState) (held : Held) : List AStep → Bool
+  | [] => true
+  | a :: rest =>
+    match lockStep held a (astep H c a).2 with
+    | none => false
+    | some held' => commitSerialFrom (astep H c a).1 held' rest
+
+/-- The schedule, run from `c` with no `Commit` in progress, respects `Buffer.commitMu`: between a
+`commitCheck r id _` that succeeds and the `commitStore r id` that belongs to it (the next one)
+there is no other `commitCheck r id _`, no `wCommit r id _`, and no `wCancel r id`
+(`MemConc.commitSerial_window` is this reading, proved). It is a Boolean checker, so that for a
+concrete schedule and hash it is settled by evaluation. -/
+def CommitSerial (c : CState) (sched : List AStep) : Prop := commitSerialFrom H c [] sched = true
+
+instance (c : CState) (sched : List AStep) : Decidable (CommitSerial H c sched) :=
+  inferInstanceAs (Decidable (_ = true))
 
 end
 
